@@ -1,0 +1,26 @@
+// SPDX-FileCopyrightText: 2026 The Pion community <https://pion.ly>
+// SPDX-License-Identifier: MIT
+
+//go:build verif
+
+package verifhook
+
+import "sync/atomic"
+
+var noteHandler atomic.Value // func(string, any, []int)
+
+// InstallNote sets the function called at every Note. nil removes it.
+func InstallNote(f func(name string, who any, vals []int)) {
+	if f == nil {
+		f = func(string, any, []int) {}
+	}
+	noteHandler.Store(f)
+}
+
+// Note is a named observation point: it hands the harness values that the
+// surrounding code computed (who identifies the object they belong to).
+func Note(name string, who any, vals ...int) {
+	if h, ok := noteHandler.Load().(func(string, any, []int)); ok && h != nil {
+		h(name, who, vals)
+	}
+}
